@@ -21,6 +21,11 @@ CLAIMED = {
         technique="every bundled graph algorithm run on all small directed multigraphs (exhaustive enumeration) and seeded random ones; results recorded and judged by TLC against the mathematical definitions written in GraphAlgo.tla (relaxation fixpoint, reachability, brute force over edge subsets / cuts / node subsets)",
         text="All multigraphs with <= 3 nodes and <= 2 (quick) / 3 (thorough) edges over every ordered pair (self-loops, parallel and antiparallel edges, isolated nodes) x weight class {1, 2, missing}, plus random graphs to 6 nodes / 9 edges with zero and equal weights; every source / target. Checked: Dijkstra = Bellman-Ford = Floyd-Warshall = definition, paths real and optimal (Dijkstra, A*), negative weights and negative-cycle detection, weak / strong components and counts, topological order iff acyclic, Kruskal and Prim (every start) minimum spanning forests, max flow = min cut with capacities and conservation, BFS order / layers, DFS, triangles, articulation points, bridges, core numbers, PageRank is a distribution.",
         note="Definitions are evaluated by brute force, so graphs are small. Community detection, betweenness / closeness and min-cost flow are not covered. PageRank values are not compared."),
+    "C18": dict(
+        engine="vector", category="model_checking", design_ref="DESIGN.md §7 C18",
+        technique="TLA+ model of the HNSW beam search (MC_HnswBeam.tla) model-checked by TLC over every small graph / entry / ef / visiting order for the result-set lemma; histories on the real HnswIndex (proximity graph via a cfg(grafeo_verif) hook), quantised indexes, GrafeoDB::vector_search, brute_force_knn, distance kernels and quantisers validated by TLC against Hnsw.tla",
+        text="Design: result within the reachable set R, |result| = min(ef,|R|), exact when ef >= |R| (all graphs on 3 (quick) / 4 (thorough) nodes). Code: for every search of the recorded histories TLC recomputes the greedy descent and R from the dumped graph and checks at most k distinct present ids, true distance under the metric, sorted, count = min(k,|R|), exactly the k nearest of R when max(ef,k) >= |R|, batch = one-by-one; removed ids never returned (no dangling links after every mutation); brute_force_knn exact; kernels = definitions for dims 1..40; quantiser contracts.",
+        note="Integer-coordinate vectors only (exact arithmetic); extreme magnitudes / NaN are not covered. Quantised indexes are checked without the graph-derived count. zone maps, mmap storage and query-language vector operators are out of scope."),
     "C07": dict(
         engine="txn", category="model_checking", design_ref="DESIGN.md §7 C07",
         technique="copies (import(export), to_memory, save+open, open_in_memory) logged after every action of multi-session histories and validated by TLC against Mvcc.tla (mechanism enumeration or committed graph); plus bit-exact value-fidelity checks and child-process enumeration of truncated / bit-flipped snapshots",
@@ -96,6 +101,8 @@ CLAIMED = {
 REASON_PENDING = "not claimed yet in this round: specification and conformance binding for this property are designed (DESIGN.md §7) but not built; no check is registered rather than an unsound one"
 
 ENGINES = [
+    dict(name="vector", path="spec/vector", serves_properties=["C18"],
+         kind_free_text="TLA+ Hnsw.tla (search contract over the layered proximity graph), MC_HnswBeam.tla (beam search state machine), Trace_Hnsw.tla checked by TLC; harness `gv vec` + hook HnswIndex::verif_dump"),
     dict(name="misc", path="spec/misc", serves_properties=["C15", "C16", "C19"],
          kind_free_text="TLA+ Codec.tla / ValueLaws.tla / GraphAlgo.tla (laws and identities over recorded results, evaluated by TLC); harness `gv codec`, `gv pcol`, `gv vals`, `gv galgo`"),
     dict(name="query", path="spec/query", serves_properties=["C08", "C09", "C10", "C11"],
